@@ -435,6 +435,10 @@ class Owner(HasTraits):
     x = List(CInt)
     log = None
 
+    def __len__(self):
+        # a collection-like model: falsy while its list is empty
+        return len(self.__dict__.get("x", ()))
+
     def _x_items_changed(self, ev):
         self.log.append((ev.index, list(ev.removed), list(ev.added)))
 
